@@ -10,12 +10,22 @@ P = {
                   'never exceeds balance - unvested; "unvested coins are never delegated" holds after ALL histories; "balance >= locked" holds '
                   'after all histories that do not merge a grant after a slash (partial) and is refuted for those (finding, reproduced on /repo). '
                   'The model is compared on every run with the real application over 13 spend paths, 3 delegation paths, undelegation, unbonding '
-                  'completion, slashing, clawback and grant merges, with amounts at spendable-1/0/+1',
+                  'completion, slashing, clawback and grant merges, with amounts at spendable-1/0/+1. '
+                  'Account kind (vesting / plain EthAccount) and the account-type messages are part of the model and of the histories: '
+                  'MsgConvertVestingAccount succeeds only for a vesting account whose SCHEDULE has nothing unvested and nothing locked up '
+                  '(GetVestingCoins = 0 and GetLockedUpCoins = original - unlocked = 0, whatever is delegated), at any point of any history; '
+                  'once a schedule locks nothing it locks nothing at any later time (monotone unlocking), so "balance >= locked" and '
+                  '"unvested never delegated" survive conversion to a plain account, conversion back (ApplyVestingSchedule: DelegatedFree := '
+                  'bonded + unbonding), merges, funder updates and clawbacks by the current funder, over all histories (the K11 exclusion '
+                  'unchanged); with the guard computed from the bank-facing LockedCoins instead (locked - min(delegated, lockedUpVested)) the '
+                  'history [delegate all; convert; undelegate; payout; send] empties an account whose schedule still locks everything (refuted)',
     'level_note': 'trusted: Coq kernel + vm_compute; the hand-written single-denomination model (tied to /repo only by the sampled correspondence '
                   'run, two denominations side by side); the merged (DisjunctPeriods) and capped (ConjunctPeriods) schedules are inputs of the '
                   'model, checked for well-formedness and monotonicity at use (their exact construction is property C09); SDK staking shares/'
                   'tokens arithmetic and unbonding queue enter as observed figures; go-ethereum interpreter, authz dispatch, gov/dao/erc20 '
-                  'keepers are only driven, not modelled; IBC transfer is not driven (no channel can be mocked cheaply); no axioms',
+                  'keepers are only driven, not modelled; IBC transfer is not driven (no channel can be mocked cheaply); for a converted '
+                  'account the model keeps the discarded vesting record as a ghost (the code has dropped it); MsgConvertIntoVestingAccount '
+                  '{Stake:true} is not driven; no axioms',
     'technique': 'Coq proof (invariants by induction over operation histories, closed-form of the locked amount) + differential '
                  'correspondence and property oracle with an independent big.Int reference of the schedule',
     'drivers': [
@@ -31,17 +41,31 @@ P = {
             'contract-internal transfer through the script contract, UC DAO MsgFund, gov MsgDeposit, ERC20 ConvertCoin, MsgSend through the '
             'ERC20 route, cosmos fee deduction decorator, eth fee deduction) at spendable-1/0/+1/half/one, delegations (MsgDelegate, authz exec, '
             'staking precompile) at delegatable-1/0/+1, undelegate, staking end-block (unbonding completion), time advance, Slash, credit, '
-            'grant merge, clawback; non-trivial = at least one successful spend and three successful spends/delegations; distinct = distinct inputs',
+            'grant merge (by the funder / a foreign signer), clawback (current / stale funder), MsgConvertVestingAccount, '
+            'MsgConvertIntoVestingAccount (plain -> vesting, merge, wrong signer), MsgUpdateVestingFunder; 35 % of the cases are '
+            'account-type histories: block time steered before / at / between / after the vesting end and the lock-up end of the schedule in '
+            'the input, none / half / all-but-one / all of the delegatable amount delegated, optional undelegation in flight, clawback, '
+            'merged grant, slash, funder change, then MsgConvertVestingAccount, undelegation, staking end-block after the unbonding time, '
+            'spends at spendable / spendable+1 over the spend paths, delegations, conversion back into a vesting account, second round. '
+            'Oracle: balance >= max(original - unlockedVested - tracked, unvested) after every successful non-delegation transaction; a '
+            'successful MsgConvertVestingAccount at block time t requires original - unlocked(t) = 0 and original - vested(t) = 0 in both '
+            'denominations (reference evaluation of the stored schedule); if it succeeds otherwise the discarded schedule stays an '
+            'obligation (tracked delegation continued by the SDK rules) that every later transaction is checked against, reported '
+            'separately; the Coq model (kind, funder, convert guard from the schedule) is evaluated on the same histories incl. refused '
+            'operations; non-trivial = at least one successful spend and three successful spends/delegations; distinct = distinct inputs',
     'trusted_base': [
         'Coq 8.16.1 kernel incl. vm_compute (no native_compute)',
         'axioms: none (Print Assumptions: closed under the global context for every theorem of Props/C08.v)',
         'correspondence harness harness/locked.go + vlib/core.py (generator, reference schedule evaluation, oracle, shrinker)',
-        'modelled, not verified: SDK bank subUnlockedCoins / DelegateCoins / UndelegateCoins, BaseVestingAccount.TrackUndelegation; inputs of '
+        'modelled, not verified: SDK bank subUnlockedCoins / DelegateCoins / UndelegateCoins, BaseVestingAccount.TrackUndelegation, the '
+        'account keeper storing an EthAccount in place of the vesting record (plain accounts: no locked amount, no tracking); inputs of '
         'the model: merged / capped schedules (C09), the staking module\'s bonded and unbonding figures, matured unbonding payouts',
     ],
     'assumptions': [
         'every account debit of the application goes through the SDK bank keeper\'s subUnlockedCoins (sampled over 13 paths; IBC transfer not driven)',
         'sdk.Coins arithmetic is per denomination; LockedCoins\' all-denominations reset on a negative result cannot fire for well-formed accounts (lk_raw_nonneg)',
         'a failed message leaves no state behind (baseapp semantics, reproduced with cache contexts)',
+        'the property is read as: a clawback vesting account may stop being one (MsgConvertVestingAccount) only when its lock-up and vesting '
+        'schedules are done, whatever is delegated; otherwise coins still locked by the schedule could leave a plain account',
     ],
 }
